@@ -93,6 +93,15 @@ CLAIMED["C07"] = (
     "the registries the exact inverse of the assignment; removal of a contained obstacle must not raise.",
     "axis-parallel rectangular obstacle shapes; one symbolic position per obligation; programs of 2 (quick) / 3 (thorough) "
     "operations; shapely replaced by shapely-lite; reader-side assignment not covered", "2/C07")
+CLAIMED["C13"] = (
+    "The real ScenarioID.__str__ runs on symbolic fields (map name as a z3 string, numbers as solver integers rendered by "
+    "the str/int contract); the printed template is proved to lie in the language of the library's own benchmark_id_pattern "
+    "(translated from re._parser to a z3 regex), printed ids of equal shape are proved to determine their pieces (word "
+    "equations, z3 then cvc5) and ids of different shape never to coincide; the library's post-match code of from_benchmark_id "
+    "then runs on the matched pieces and must return an equal id that prints identically. Solution ids are printed and "
+    "parsed back for every (vehicle model, type, admissible cost) and pairs of them.",
+    "alphanumeric non-empty map names; numbers >= 1; 1-3 prediction ids; the C regex engine is replaced by the proved "
+    "unambiguity of the template; str(int)/int(str) contract assumed", "2/C13")
 NOT_YET = {}
 
 props = [json.loads(l) for l in open(os.path.join(ROOT, "properties.jsonl"))]
